@@ -92,7 +92,7 @@ def _exc_site(tb):
 
 
 def invoke(world, op, faults=None, trace=False, budget=None, monitor=False, track=False, tail=0,
-           site_at=None, black=True, call=None, wall_s=30, with_exits=False):
+           site_at=None, black=True, call=None, wall_s=30, with_exits=False, cwd_on_path=False):
     """Run one operation.
 
     op: {"cmd": "cli", "argv": [...]}  -> cdd.__main__.main(argv)
@@ -136,6 +136,10 @@ def invoke(world, op, faults=None, trace=False, budget=None, monitor=False, trac
             "Mode": (lambda target_versions, line_length, is_pyi, string_normalization: None),
         })
     os.chdir(world.root)
+    if cwd_on_path:
+        # `python -m cdd` puts the current directory first on sys.path: whatever is importable from the project
+        # directory is importable by the tool
+        sys.path.insert(0, world.root)
     sys.stdout, sys.stderr = sink_out, sink_err
     sys.argv = ["python -m cdd"]
     if exmod_utils is not None:
@@ -179,6 +183,11 @@ def invoke(world, op, faults=None, trace=False, budget=None, monitor=False, trac
             signal.setitimer(signal.ITIMER_REAL, 0)
             signal.signal(signal.SIGALRM, old_alarm)
         seams.end(st)
+        if cwd_on_path:
+            try:
+                sys.path.remove(world.root)
+            except ValueError:
+                pass
         sys.stdout, sys.stderr = old_out, old_err
         sys.argv = old_argv
         try:
